@@ -28,15 +28,20 @@ MANIFEST = {
             "traversal, as written; it is executed on the same op scripts as the real code and every "
             "state field (hex doubles) is compared. Proved: complexIntersect_first_exit, "
             "simpleIntersect_exit, limited_eq_truncated_unlimited, findNextStep_min_shallowest, "
-            "setDir_flag_correct (+ negation for the pre-repair loop on a rotated-daughter witness), "
-            "ray_trace_matches_location (single level, ℝ, parity contract) and termination. An "
+            "(simple units AND rect arrays), setDir_flag_correct (+ negation for the pre-repair loop "
+            "on a rotated-daughter witness, + negation of the post-crossing case), "
+            "ray_trace_matches_location_unit (single level, ℝ, parity contract DERIVED from the C12 "
+            "surface theorems + IVT for rays in general position), levels_share_the_ray and "
+            "nested_trace_first_change_partial (composition over the depth: one step), termination. An "
             "impl-side oracle locates points of every ray independently from the OrangeInput "
             "definition (senses from the surface functions, logic evaluation, daughter recursion).",
     "design_ref": "DESIGN.md §6 C03",
-    "note": "Partial: the multi-level ray-trace theorem is not proved (single level + per-level lemmas "
-            "only); floating-point rounding and tangent/corner rays are outside the ℝ theorems and are "
-            "covered by the differential runs and the oracle only; involute surfaces are not modelled "
-            "(bundled involute inputs do not load in this build).",
+    "note": "Partial: the nested trace is proved for one find/cross step (first change of the nested "
+            "location = distance and level of find_next_step); iterating it needs the re-initialised "
+            "deeper levels to equal the location just behind the crossing (no daughter surface through "
+            "the crossing point). Floating-point rounding and tangent/corner rays are outside the ℝ "
+            "theorems (general-position hypotheses FaceGP) and are covered by the differential runs and "
+            "the oracle only; involute surfaces are not modelled (bundled involute inputs do not load).",
 }
 
 AXES = "xyz"
@@ -212,8 +217,11 @@ class Session:
         self.lines, self.out, self.model_skip = [], [], set()
 
     def ask(self, line, model=True):
-        self.p.stdin.write(line + "\n")
-        self.p.stdin.flush()
+        try:
+            self.p.stdin.write(line + "\n")
+            self.p.stdin.flush()
+        except (BrokenPipeError, OSError):
+            raise RuntimeError("harness died before: " + line[:200])
         o = self.p.stdout.readline()
         if not o:
             raise RuntimeError("harness died on: " + line[:200])
@@ -487,7 +495,8 @@ def gen_rect_json(rng, path):
            "daughters": dau, "translations": tra}
     with open(path, "w") as f:
         json.dump({"_format": "ORANGE", "_version": 0, "universes": [glob, holder, arr] + units}, f)
-    return Rw
+    centre = [t[i] + sum(cols[a][i] * W[a] / 2 for a in range(3)) for i in range(3)]
+    return Rw, (centre, 0.5 * math.sqrt(sum(c * c for c in W)))
 
 
 # --------------------------------------------------------------------------- one geometry
@@ -497,6 +506,7 @@ class GeoRun:
         self.json_path, self.extent = json_path, extent
         self.sess = None
         self.pg = None
+        self.aim = None      # (centre, radius) of a region most rays should pass through
         self.stats = {"tracks": 0, "ops": 0, "crossings": 0, "probes": 0, "near_skipped": 0,
                       "limited_checks": 0, "setdir_on_boundary": 0, "setdir_deeper": 0,
                       "reentrant": 0, "max_level": 0, "exits": 0, "init_fail": 0, "moves": 0}
@@ -737,6 +747,8 @@ class GeoRun:
             if rng.chance(1, 3):
                 pos = [c * 0.3 for c in pos]
             tgt = [(rng.unit() * 2 - 1) * E * 0.5 for _ in range(3)]
+            if self.aim is not None and rng.chance(3, 4):
+                tgt = [self.aim[0][i] + (rng.unit() * 2 - 1) * self.aim[1] * 0.6 for i in range(3)]
             dr = [tgt[i] - pos[i] for i in range(3)]
             nn = math.sqrt(sum(c * c for c in dr))
             if nn < 1e-6 or rng.chance(1, 10):
@@ -799,8 +811,8 @@ def run(ctx):
         geos.append(("rand%d" % k, "geo build %s 1e-5 %s" % (jp, " ".join(toks)), jp, R, info))
     for k in range(6 if quick else 40):
         jp = os.path.join(tmp, "rect%d.json" % k)
-        Rw = gen_rect_json(rng, jp)
-        geos.append(("rect%d" % k, "geo file " + jp, jp, Rw, {"rect": True}))
+        Rw, aim = gen_rect_json(rng, jp)
+        geos.append(("rect%d" % k, "geo file " + jp, jp, Rw, {"rect": True, "aim": aim}))
     n_tracks_bundled = 40 if quick else 400
     n_tracks_rand = 40 if quick else 250
     total = {}
@@ -863,9 +875,11 @@ def run(ctx):
             skipped.append(name + " (time budget)")
             continue
         gr = GeoRun(ctx, exe, name, geo_line, jp, R or 1.0)
+        if info and info.get("aim"):
+            gr.aim = info["aim"]
         try:
             ok, why = gr.start()
-        except RuntimeError as e:
+        except (RuntimeError, BrokenPipeError, OSError):
             ok, why = False, "harness crashed while building the geometry"
             crashed.append(geo_line)
         if not ok:
@@ -904,9 +918,12 @@ def run(ctx):
     ctx.assumptions += [
         "theorems about distances are stated at ℝ for the Num-generic definitions; the same definitions "
         "run at Float reproduce every state field of the real navigator bit-for-bit on all ops compared",
-        "ray_trace_matches_location: single level, events with pairwise distinct distances (no corner / "
-        "tangent rays), surfaces satisfy the parity contract (C12: reported distances are exactly the "
-        "positive roots; sense = sign), volumes partition the senses",
+        "ray_trace_matches_location_unit: ray in general position w.r.t. every face (start off the "
+        "surfaces, leading coefficient outside the solver's tolerance band or plane crossed "
+        "transversally, all crossings simple, distances below max()); volumes partition the senses; "
+        "coinciding events of different faces produce empty intervals reported by both sides alike",
+        "nested_trace_first_change_partial: daughter transforms are translations or transformations "
+        "with orthonormal rows; one step only",
         "std::sort of the intersection indices is modelled as a stable insertion sort (ties between "
         "exactly equal distances are not pinned by the C++ standard)",
         "documented call order (find before move/cross; cross only on a boundary) is enforced by both "
